@@ -439,10 +439,7 @@ fn encodings(cx: &mut Ctx, count: u64, seed: u64) {
         let ascii_only = rng.chance(1, 3);
         let text: String = if ascii_only {
             // an ASCII-only document (the defect class of the pinned tree)
-            let opts = GenOpts { max_depth: 2, max_width: 3, ..GenOpts::common() };
-            let v = V::Map(vec![(V::Str("k".into()), V::Int(rng.below(100) as i128)), (V::Str("list".into()), V::Seq(vec![V::Bool(true), V::Str("abc".into())]))]);
-            let _ = opts;
-            val::to_yaml(&v, val::Spell { seed: 0 }).unwrap()
+            format!("k: {}\nlist:\n  - true\n  - abc\n", rng.below(100))
         } else {
             text.to_owned()
         };
